@@ -172,6 +172,46 @@ def eval_group_wildcards(args):
     return dict(args=args, bad=bad) if bad else False
 
 
+GW11 = dict(GW)
+GW11.update({'not-x': dict(attr='notNamespace="urn:x"', w=dict(namespace=set(), not_namespace={'urn:x'}, not_qname=set())),
+             'not-y-local': dict(attr='notNamespace="urn:y ##local"', w=dict(namespace=set(), not_namespace={'urn:y', ''}, not_qname=set())),
+             'any-not-xfoo': dict(attr='namespace="##any" notQName="x:foo"', w=dict(namespace={'##any'}, not_namespace=set(), not_qname={'{urn:x}foo'})),
+             'any-not-baz': dict(attr='namespace="##any" notQName="baz"', w=dict(namespace={'##any'}, not_namespace=set(), not_qname={'baz'}))})
+
+
+def eval_two_groups(args):
+    """a type that references TWO attribute groups, each with its own wildcard (the second group may live in an imported schema of another target namespace): the type admits the
+    intersection of the two denoted sets, whichever way the constraints are spelled"""
+    g1, g2, ver, foreign = args
+    import xmlschema, sys, os, tempfile, shutil
+    sys.path.insert(0, os.path.dirname(os.path.dirname(os.path.abspath(__file__))))
+    from specs import wildcard as spec
+    pool = GW11 if ver == '1.1' else GW
+    XSN = 'xmlns:xs="http://www.w3.org/2001/XMLSchema" xmlns:x="urn:x" xmlns:y="urn:y"'
+    d = tempfile.mkdtemp(prefix='verif_c03_')
+    try:
+        if foreign:
+            open(os.path.join(d, 'u.xsd'), 'w').write(f'<xs:schema {XSN} targetNamespace="urn:u"><xs:attributeGroup name="G2"><xs:anyAttribute {pool[g2]["attr"]} processContents="skip"/></xs:attributeGroup></xs:schema>')
+            imp = '<xs:import namespace="urn:u" schemaLocation="u.xsd"/>'; g2decl = ''; ref2 = 'u:G2'
+        else:
+            imp = ''; g2decl = f'<xs:attributeGroup name="G2"><xs:anyAttribute {pool[g2]["attr"]} processContents="skip"/></xs:attributeGroup>'; ref2 = 't:G2'
+        open(os.path.join(d, 'm.xsd'), 'w').write(f'<xs:schema {XSN} targetNamespace="urn:t" xmlns:t="urn:t" xmlns:u="urn:u">{imp}<xs:attributeGroup name="G1"><xs:anyAttribute {pool[g1]["attr"]} processContents="skip"/></xs:attributeGroup>{g2decl}'
+                                              f'<xs:complexType name="T2"><xs:attributeGroup ref="t:G1"/><xs:attributeGroup ref="{ref2}"/></xs:complexType><xs:element name="two" type="t:T2"/></xs:schema>')
+        try: s = _cls(ver)(os.path.join(d, 'm.xsd'))
+        except xmlschema.XMLSchemaException: return None
+        w1 = dict(pool[g1]['w'], tns='urn:t'); w2 = dict(pool[g2]['w'], tns='urn:u' if foreign else 'urn:t'); bad = []
+        if foreign and g2 == 'x+tns': w2['namespace'] = {'urn:x', 'urn:u'}          # ##targetNamespace is that of the schema the group is declared in
+        names = dict(GNAMES); names['{urn:u}q'] = 'u:q'; names['{urn:x}other'] = 'x:other'
+        for name, lex in names.items():
+            exp = spec.denote_name(w1, name) and spec.denote_name(w2, name)
+            doc = f'<t:two xmlns:t="urn:t" xmlns:x="urn:x" xmlns:y="urn:y" xmlns:u="urn:u" {lex}="1"/>'
+            try: got = s.is_valid(doc)
+            except Exception as e: got = 'raised ' + type(e).__name__
+            if got != exp: bad.append(('two', name, got, exp))
+        return dict(args=args, bad=bad) if bad else False
+    finally: shutil.rmtree(d, ignore_errors=True)
+
+
 def run(tier, seed, open_findings):
     allc = list(configs())
     sel, exhaustive = part(allc, tier, seed, 16)
@@ -187,12 +227,19 @@ def run(tier, seed, open_findings):
              for r in gres if r]
     extra = result('C03.shared_attribute_group_wildcards', f'{len(gjobs)} schemas: a named attribute group with a wildcard used alone by one type and together with an own wildcard by another (5 x 5 constraints, both declaration orders, 2 classes) x 4 attribute names',
                    len(gjobs) * 8, gfail, exhaustive=True, samples=[dict(group='##any', own='##local')], distinct=sum(1 for r in gres if r is not None) * 8)
-    return [extra, result('C03.attribute_sets', f'{len(sel)} of {len(allc)} (declarations, wildcard, class) configurations x subsets <= 3 of a 7-name pool x 3 values', cases, failures,
+    tjobs = [(g1, g2, ver, fr) for ver in ('1.0', '1.1') for g1 in (GW11 if ver == '1.1' else GW) for g2 in (GW11 if ver == '1.1' else GW) for fr in (False, True)]
+    tres = pmap(eval_two_groups, tjobs, chunk=4)
+    tfail = [dict(case=dict(two_groups=list(r['args'])), observed=[list(b) for b in r['bad'][:4]], required='a type that references two attribute groups admits the intersection of their wildcards') for r in tres if r]
+    extra2 = result('C03.two_attribute_groups_intersection', f'{len(tjobs)} schemas: one type referencing two attribute groups with wildcards (5 x 5 constraints under XSD 1.0, 9 x 9 with notNamespace / notQName under XSD 1.1; the second group in the same or in an imported schema) x 6 attribute names',
+                    len(tjobs) * 6, tfail, exhaustive=True, samples=[dict(g1='##any', g2='##any notQName=x:foo')], distinct=sum(1 for r in tres if r is not None) * 6)
+    return [extra2, extra, result('C03.attribute_sets', f'{len(sel)} of {len(allc)} (declarations, wildcard, class) configurations x subsets <= 3 of a 7-name pool x 3 values', cases, failures,
                    exhaustive=exhaustive, samples=[dict(decls={'a': USES[2], 'b': USES[4]}, wildcard=WCS[5], attrs={'a': '7'})],
                    reported={'prohibited-and-wildcard-admits (outside the deciding scope)': exc}, distinct=cases)][::-1]
 
 
 def replay(check_name, case):
+    if 'two_groups' in case:
+        r = eval_two_groups(tuple(case['two_groups'])); return dict(ok=not r, observed=r and r['bad'][:4], required='intersection of the two wildcards')
     if 'group_wildcards' in case:
         r = eval_group_wildcards(tuple(case['group_wildcards'])); return dict(ok=not r, observed=r and r['bad'][:4], required='group wildcard semantics')
     ua, ub, ug, wi, ver = case['cfg']
